@@ -997,10 +997,17 @@ def family_of(index):
     return 'midmod'
 
 
-def make_spec(root_seed, index, thorough):
-    seed = core.derive_seed(ENGINE, PROP, root_seed, index)
+def make_spec(root_seed, index, thorough, coarse_clock=False):
+    seed = core.derive_seed(ENGINE, PROP if not coarse_clock else PROP + '/coarseclock', root_seed, index)
     rng = random.Random(seed)
-    cfg = gen_config(rng, family_of(index), thorough)
+    if coarse_clock:
+        # observation family (never a verdict): time stamps with the granularity of an old or
+        # networked file system; an mtime comparison cannot tell two writes within one tick apart
+        cfg = gen_config(rng, rng.choice(['sched', 'midmod']), thorough)
+        cfg['clock'] = 'coarse'
+        cfg['clock_gran_ns'] = rng.choice([4_000_000, 1_000_000_000, 2_000_000_000])
+    else:
+        cfg = gen_config(rng, family_of(index), thorough)
     cfg['clock_seed'] = rng.randrange(1 << 30)
     workload = gen_workload(rng, cfg, thorough)
     return {'engine': ENGINE, 'property': PROP, 'verif_seed': root_seed, 'run_index': index, 'seed': seed,
